@@ -93,18 +93,14 @@ Section C17.
     (exists id q v n, handle_message parse_jsi p true (Some f) = WsStart id q v n) <-> ws_well_formed parse_jsi (Some f) = true.
   Proof. exact (ws_start_iff_well_formed parse_jsi). Qed.
 
-  (** ** beyond the canonical envelopes: any JSON object read as POST application/json body (no
-      ?query=) and read as start / subscribe payload gives the same operation, as long as no number
-      is outside the float64 range and "query" / "operationName" are not repeated (the two corner
-      cases where encoding/json and jsoniter part ways: [null] after an earlier value, out-of-range
-      numbers in members that are not read) *)
-  Theorem C17_post_body_and_ws_payload_agree : forall text kvs p id o x,
-    parse_std text = PTree (JObj kvs) -> parse_jsi text = PTree (JObj kvs) ->
-    fold_members StdJson kvs = fold_members Jsoniter kvs ->      (* no member name containing U+017F, U+0130 *)
-    has_range (JObj kvs) = false -> single_string_members (fold_members StdJson kvs) = true ->
-    decode fixed parse_std parse_jsi (WHttp {| e_method := m_post; e_media := mt_json; e_url := []; e_body := text |}) = Some (o, x) ->
-    decode fixed parse_std parse_jsi (WWs p {| f_type := start_type p; f_id := id; f_payload := Some text |}) = Some (o, None).
-  Proof. exact (post_body_and_ws_payload_agree parse_std parse_jsi). Qed.
+  (** ** beyond the canonical envelopes: the same text — any bytes — read as POST application/json
+      body (no ?query=) and as start / subscribe payload gives the same operation (both are decoded
+      by encoding/json since the repair; before it the sockets used jsoniter, see
+      [C17_ws_payload_library_refuted_before_fix]) *)
+  Theorem C17_post_body_and_ws_payload_agree : forall text p id o x,
+    decode fixed parse_std parse_std (WHttp {| e_method := m_post; e_media := mt_json; e_url := []; e_body := text |}) = Some (o, x) ->
+    decode fixed parse_std parse_std (WWs p {| f_type := start_type p; f_id := id; f_payload := Some text |}) = Some (o, None).
+  Proof. exact (post_body_and_ws_payload_agree parse_std). Qed.
 
   (** ** the pipeline behind the envelopes: abstract *)
   Variables Schema Features Ctx Doc Resp SchemaDef : Type.
@@ -224,11 +220,11 @@ Section C17Bytes.
       canonical envelope *)
   Theorem C17_envelope_roundtrip_bytes : forall t id o,
     wf_op o = true -> carries t o = true -> (forall j, In j (sent_json t o) -> text_clean numclean j) ->
-    decode fixed (parse_text StdJson numval) (parse_text Jsoniter numval) (encode (print numprint) t id o) = Some (o, None).
+    decode fixed (parse_text StdJson numval) (parse_text StdJson numval) (encode (print numprint) t id o) = Some (o, None).
   Proof.
-    exact (C17_envelope_roundtrip (print numprint) (parse_text StdJson numval) (parse_text Jsoniter numval) (text_clean numclean)
+    exact (C17_envelope_roundtrip (print numprint) (parse_text StdJson numval) (parse_text StdJson numval) (text_clean numclean)
              (std_faithful_bytes numval numprint numclean num_nonempty num_chars num_grammar num_back)
-             (jsi_faithful_bytes numval numprint numclean num_nonempty num_chars num_grammar num_back)
+             (std_faithful_bytes numval numprint numclean num_nonempty num_chars num_grammar num_back)
              (render_nonempty_bytes_clean numprint numclean num_nonempty num_chars)).
   Qed.
 
@@ -245,7 +241,7 @@ Section C17Bytes.
            (sha : bytes -> bytes) (not_found : Resp) (st : PersistedQueryModel.storage),
     let pq := pq_of Resp (event Features Ctx Doc) sha not_found st in
     let resp := respond no_features parse_validate is_subscription execute run_subscription pq marshal fixed
-                        (parse_text StdJson numval) (parse_text Jsoniter numval) (print numprint) in
+                        (parse_text StdJson numval) (parse_text StdJson numval) (print numprint) in
     forall t1 t2 (a : api Schema Features Ctx) c id1 id2 o,
     wf_op o = true -> carries t1 o = true -> carries t2 o = true ->
     (forall j, In j (sent_json t1 o) \/ In j (sent_json t2 o) -> text_clean numclean j) ->
@@ -255,30 +251,15 @@ Section C17Bytes.
     resp t1 a c id1 o = resp t2 a c id2 o /\ exists body, fst (resp t1 a c id1 o) = Some [body].
   Proof.
     exact (fun Schema Features Ctx Doc Resp no_features parse_validate is_subscription execute run_subscription marshal sha not_found st =>
-             C17_transport_same_response (print numprint) (parse_text StdJson numval) (parse_text Jsoniter numval) (text_clean numclean)
+             C17_transport_same_response (print numprint) (parse_text StdJson numval) (parse_text StdJson numval) (text_clean numclean)
                (std_faithful_bytes numval numprint numclean num_nonempty num_chars num_grammar num_back)
-               (jsi_faithful_bytes numval numprint numclean num_nonempty num_chars num_grammar num_back)
+               (std_faithful_bytes numval numprint numclean num_nonempty num_chars num_grammar num_back)
                (render_nonempty_bytes_clean numprint numclean num_nonempty num_chars)
                Schema Features Ctx Doc Resp no_features parse_validate is_subscription execute run_subscription
                (pq_of Resp (event Features Ctx Doc) sha not_found st) marshal
                (pq_of_no_ext Resp (event Features Ctx Doc) sha not_found st)).
   Qed.
 End C17Bytes.
-
-(** the same bytes, read as different operations by the two libraries (observations on the real
-    code, see checks/C17.design.md): a member named "variable" + U+017F is [variables] for encoding/json
-    only; a lone surrogate escape followed by an escaped pair loses the pair on the sockets *)
-Theorem C17_same_text_other_operation :
-  (exists text o1 o2 x id, 
-     decode fixed (parse_text StdJson (fun _ => None)) (parse_text Jsoniter (fun _ => None))
-            (WHttp {| e_method := m_post; e_media := mt_json; e_url := []; e_body := text |}) = Some (o1, x) /\
-     decode fixed (parse_text StdJson (fun _ => None)) (parse_text Jsoniter (fun _ => None))
-            (WWs GraphqlWS {| f_type := t_start; f_id := id; f_payload := Some text |}) = Some (o2, None) /\
-     o_vars o1 <> o_vars o2) /\
-  (exists text s1 s2,
-     parse_text StdJson (fun _ => None) text = PTree (JStr s1) /\
-     parse_text Jsoniter (fun _ => None) text = PTree (JStr s2) /\ s1 <> s2).
-Proof. exact same_text_other_operation. Qed.
 
 (** ** the two repaired defects, kept as witnesses against the pinned code *)
 
@@ -297,6 +278,18 @@ Theorem C17_trailing_bytes_refuted_before_fix :
   (exists r, new_request_from_http pinned toy_parse e = Accept r) /\
   new_request_from_http fixed toy_parse e = Reject 400.
 Proof. exact trailing_bytes_refuted_before_fix. Qed.
+
+(** the third repaired defect: socket payloads were decoded by jsoniter, HTTP bodies by encoding/json;
+    the same bytes gave different variables (a member named "variable" + U+017F), a different query
+    (a repeated member ending in null) or a different string (an unpaired surrogate escape followed by
+    an escaped pair) depending on the transport *)
+Theorem C17_ws_payload_library_refuted_before_fix :
+  (exists text o1 o2, payload_op StdJson text = Some o1 /\ payload_op Jsoniter text = Some o2 /\ o_vars o1 <> o_vars o2) /\
+  (exists text o1 o2, payload_op StdJson text = Some o1 /\ payload_op Jsoniter text = Some o2 /\ o_query o1 <> o_query o2) /\
+  (exists text s1 s2,
+     parse_text StdJson (fun _ => None) text = PTree (JStr s1) /\
+     parse_text Jsoniter (fun _ => None) text = PTree (JStr s2) /\ s1 <> s2).
+Proof. exact ws_payload_library_refuted_before_fix. Qed.
 
 Print Assumptions C17_envelope_roundtrip_get.
 Print Assumptions C17_envelope_roundtrip_post_json.
@@ -317,6 +310,6 @@ Print Assumptions C17_clone_same_response.
 Print Assumptions C17_json_text_roundtrip.
 Print Assumptions C17_envelope_roundtrip_bytes.
 Print Assumptions C17_transport_same_response_bytes.
-Print Assumptions C17_same_text_other_operation.
+Print Assumptions C17_ws_payload_library_refuted_before_fix.
 Print Assumptions C17_post_url_query_refuted_before_fix.
 Print Assumptions C17_trailing_bytes_refuted_before_fix.
